@@ -90,7 +90,7 @@ pub fn hist_case(data: &[u8]) -> Option<HistCase> {
     while call_cost(&cfg) * calls > 3e6 && cfg.chunk > 1 {
         cfg.chunk = (cfg.chunk / 2).max(1);
     }
-    Some(HistCase { cfg, seed, ops, envelope: true })
+    Some(HistCase { cfg, seed, ops, envelope: true, via_vec: false })
 }
 
 /// C03 + C04 monitors on one decoded history; returns the first failing outcome
@@ -169,7 +169,7 @@ pub fn twin_cases(data: &[u8]) -> Option<TwinCases> {
         c10: crate::props::c10::Case { cfg: cfg.clone(), seed, prefix, failed_call, suffix },
         c11: crate::props::c11::Case { cfg: cfg.clone(), seed, mask, ops: ops.clone(), via_vec: via_vec && flush % 2 == 1, unmask_after_reset: flush >= 2 },
         c16: crate::props::c16::Case { cfg: cfg.clone(), seed, ops: ops.clone(), via_vec, flush },
-        c17: crate::props::c17::Case { cfg: cfg17, seed, tones: vec![crate::signal::Tone { f: tone_f, a: 0.8, ph: 0.5 }], ops },
+        c17: crate::props::c17::Case { cfg: cfg17, seed, tones: vec![crate::signal::Tone { f: tone_f, a: 0.8, ph: 0.5 }], ops, amp_exp: -2 * (flush as i16 % 4) },
     })
 }
 
